@@ -12,7 +12,6 @@ import (
 	"testing"
 	"time"
 
-
 	"verif/harness/ev"
 	"verif/harness/sessprog"
 	"verif/harness/world"
